@@ -85,18 +85,29 @@ func (w *world) spentOnChain(k lt.Key) bool {
 	return w.N.UtxoStore.HaveTxKeyimgAsSpent(&k)
 }
 
+// keyWord makes an error text usable inside a violation key (no white space: keys are matched as one token).
+func keyWord(s string) string {
+	b := []byte(s)
+	for i, ch := range b {
+		if !(ch >= 'a' && ch <= 'z' || ch >= 'A' && ch <= 'Z' || ch >= '0' && ch <= '9') {
+			b[i] = '-'
+		}
+	}
+	return string(b)
+}
+
 // gapCause explains a broken nonce sequence of sender a (missing nonce exp): which mechanism is responsible.
 func (w *world) gapCause(a common.Address, committed uint64, pooled int, exp uint64) string {
 	spec := w.N.App.GetNonce(a)
 	if t := w.taint[a]; t != "" {
-		return "rejected-tx-advanced-speculative-nonce/" + t
+		return "unpooled-tx-advanced-speculative-nonce/" + keyWord(t)
 	}
 	if spec > committed+uint64(pooled) {
 		// was the transaction with the missing nonce queued before this operation and dropped by it?
 		for _, h := range w.droppedNow {
 			t := w.tracked[h]
 			if s := w.senderOf(t); s != nil && s.Addr == a && t.HasNonce && t.Nonce == exp {
-				return "queued-tx-dropped-at-promotion-advanced-speculative-nonce/" + t.Class
+				return "unpooled-tx-advanced-speculative-nonce/" + keyWord(t.Class) // dropped at promotion after it had advanced the nonce
 			}
 		}
 		return "speculative-nonce-ahead-of-pool"
@@ -179,7 +190,7 @@ func (w *world) checkOffered(s *mempool.VerifSnapshot, after string) map[common.
 				}
 				w.violation("offered/"+sub+"/"+w.gapCause(a, c, count[a], exp),
 					fmt.Sprintf("sender %s: offered tx %s carries nonce %d where %d is required (committed nonce %d) after %s", w.who(a), short(tx.Hash()), nonce, exp, c, after),
-					s, map[string]interface{}{"sender": w.who(a), "rejected_tx_that_advanced_speculative_nonce": w.taint[a], "sender_history": w.slice(a)})
+					s, map[string]interface{}{"sender": w.who(a), "rejected_tx_that_advanced_speculative_nonce": w.taintInfo[a], "sender_history": w.slice(a)})
 				return nil
 			}
 			next[a] = nonce + 1
